@@ -65,7 +65,7 @@ ALLOWED_ASSUMPTIONS = {
                              "i64::saturating_sub", "i32::saturating_sub", "i32::rem_euclid", "i32::div_euclid", "i64::div_euclid", "i32::abs",
                              "i64::saturating_abs", "i64::saturating_add", "i32::saturating_add", "i32::wrapping_abs", "i64::wrapping_abs",
                              "i32::unsigned_abs", "i64::unsigned_abs", "<FoundDateTimeList as Default>::default", "<[T]>::split_first_chunk::<N>"},
-    "external_body": {"utc", "equal", "axiom_slice_len_transitions", "axiom_slice_len_leaps", "windows2_all_le", "swap_pairs", "position_gt", "be_u32", "is_tzif_magic"},
+    "external_body": {"utc", "equal", "axiom_slice_len_transitions", "axiom_slice_len_leaps", "windows2_all_le", "swap_pairs", "position_gt", "be_u32", "is_tzif_magic", "parse", "parse_time"},
 }
 
 
@@ -126,10 +126,14 @@ def check_assumptions(found, text):
                 out.append("external_body contract on helper `%s` standing for an iterator-adapter expression of find_date_time (rule R10); proved for the original expression on every [i64; 7] by the Kani harness find_abstractions::%s_contract" % (name, name))
             elif name in ("be_u32", "is_tzif_magic"):
                 out.append("external_body contract on helper `%s` standing for an expression of parse_header (rule R10); proved for the original expression by the complete Kani harness parse_abstractions::%s_contract" % (name, name))
+            elif name in ("parse", "parse_time"):
+                out.append("NOT VERIFIED: `DataBlocks::%s` (the TZif decoder proper: iterator chains, outside Verus's subset) is rendered external_body so that its caller parse_tz_file can be verified; nothing is assumed about its result except that it is a function of its arguments (uninterpreted decoded_zone), and NO claim is made about its own panics / overflows - it is excluded from C07's function set" % name)
             elif name.startswith("axiom_"):
                 out.append("ASSUMED lemma `%s` (external_body proof fn, not proved)" % name)
             else:
                 out.append("external_body contract on `%s` (rule R7; backed by a complete Kani harness on the real body)" % name)
+        elif what == "uninterp" and "decoded_zone" in code:
+            out.append("uninterpreted specification function `decoded_zone` (stands for the result of the unverified decoder DataBlocks::parse; no axioms about it)")
         else:
             bad.append("%s (line %d): %s" % (what, ln, code))
     return sorted(set(out)), bad
@@ -250,7 +254,11 @@ def verus_property(pid, prop, tier, seed, out, work):
     cov["backends"] = {"verus_z3": discharged, "cbmc": 0}
     per_fn.sort(key=lambda x: -x["solver_ms"])
     cov["samples"] = per_fn[:25]
-    cov["functions_under_contract"] = sorted(ex.functions[k]["qual"] for k in fns if ex.functions[k]["contract"] is not None)
+    # functions whose body is replaced without a backing harness (the TZif decoder proper) are NOT under contract
+    unverified = {k for k in fns if ex.functions[k]["contract"] is not None and ex.functions[k]["contract"].external_body and not ex.functions[k]["contract"].backed_by}
+    cov["functions_under_contract"] = sorted(ex.functions[k]["qual"] for k in fns if ex.functions[k]["contract"] is not None and k not in unverified)
+    if unverified:
+        cov["functions_rendered_external_unverified"] = sorted(ex.functions[k]["qual"] for k in unverified)
     cov["functions_without_contract_in_cone"] = sorted(ex.functions[k]["qual"] for k in fns if ex.functions[k]["contract"] is None)
     cov["lemmas"] = sorted(proof_names)
     cov["assumed_lemmas"] = assumed_lemmas
